@@ -131,7 +131,82 @@ def gen_harness(w, modprefix, kinds=None):
             names.append(h)
     # ---- dispatch through vftables
     out += ['    static mut LOG_ID: usize = 0;', '    static mut LOG_THIS: usize = 0;', '    static mut LOG_ARGS: [u64; 4] = [0; 4];',
-            '    static mut LOG_CALLS: usize = 0;']
+            '    static mut LOG_CALLS: usize = 0;',
+            '    // ---- absolute addresses (see rewrite_absolute_addresses)',
+            '    pub static mut LOG_ADDR: usize = 0;', '    pub static mut LOG_ADDR_USES: usize = 0;', '    pub static mut NEXT_FN: usize = 0;',
+            '    pub static mut CELL: usize = 0;', '    #[repr(align(16))] pub struct Buf(pub [u8; 256]);', '    pub static mut DATA: Buf = Buf([0; 256]);',
+            '    pub unsafe fn addr_fn<F: Copy>(a: usize) -> F { LOG_ADDR = a; LOG_ADDR_USES += 1; let p: usize = NEXT_FN; core::mem::transmute_copy::<usize, F>(&p) }',
+            '    pub unsafe fn addr_cell(a: usize) -> usize { LOG_ADDR = a; LOG_ADDR_USES += 1; core::ptr::addr_of_mut!(CELL) as usize }',
+            '    pub unsafe fn addr_enum(a: usize) -> usize { LOG_ADDR = a; LOG_ADDR_USES += 1; core::ptr::addr_of_mut!(DATA) as usize }',
+            '    pub unsafe fn addr_data(a: usize) -> usize { LOG_ADDR = a; LOG_ADDR_USES += 1; core::ptr::addr_of_mut!(DATA) as usize }']
+    # ---- address-bound wrappers (C05), singletons and extern values (C15)
+    for path, it in sorted(items.items()):
+        if not path.startswith('m::') or it[3] != 'defined' or it[4][0] != 'resolved': continue
+        nm = path[3:]
+        inner = it[4][3]
+        if inner[0] == 'type':
+            for f in inner[3]:
+                if f[4][0] != 'address' or f[2].startswith('_'): continue
+                addr = f[4][1]
+                recv = [a for a in f[5] if isinstance(a, str)]
+                args = [a for a in f[5] if not isinstance(a, str)]
+                if not all(is_intlike(at) or at[0] in ('const*', 'mut*') for _, at in args): continue
+                sid = stub_n[0] if False else None
+                params = []; rec = []
+                if recv: params.append('this: *%s %s' % ('const' if recv[0] == '&self' else 'mut', nm)); rec.append('LOG_THIS = this as usize;')
+                for ai, (an, at) in enumerate(args):
+                    params.append('%s: %s' % (an, rust_type(at, mp)))
+                    rec.append('LOG_ARGS[%d] = %s as u64;' % (ai, an) if is_intlike(at) else 'LOG_ARGS[%d] = %s as usize as u64;' % (ai, an))
+                ret = f[6]
+                rett = '' if ret is None else ' -> ' + rust_type(ret, mp)
+                retv = '' if ret is None else ('77 as %s' % ret[1] if is_intlike(ret) and ret[1] != 'bool' else ('true' if ret == ['raw', 'bool'] else 'core::mem::zeroed()'))
+                sname = 'astub_%s_%s' % (nm, f[2])
+                out.append('    unsafe extern "C" fn %s(%s)%s { LOG_CALLS += 1; %s %s }' % (sname, ', '.join(params), rett, ' '.join(rec), retv))
+                decl = []; call = []; chk = []
+                for ai, (an, at) in enumerate(args):
+                    if is_intlike(at):
+                        decl.append('        let %s: %s = kani::any();' % (an, at[1])); call.append(an); chk.append('        assert_eq!(LOG_ARGS[%d], %s as u64);' % (ai, an))
+                    else:
+                        decl.append('        let %s_raw: usize = kani::any();' % an); decl.append('        let %s = %s_raw as %s;' % (an, an, rust_type(at, mp)))
+                        call.append(an); chk.append('        assert_eq!(LOG_ARGS[%d], %s_raw as u64);' % (ai, an))
+                h = 'addrcall_%s_%s' % (nm, f[2])
+                body = ['    #[kani::proof]', '    fn %s() {' % h, '      unsafe {', '        let mut obj: %s = core::mem::zeroed();' % nm,
+                        '        NEXT_FN = %s as usize; LOG_CALLS = 0; LOG_ADDR_USES = 0;' % sname] + decl
+                callx = ('obj.%s(%s)' if recv else nm + '::%s(%s)') % (f[2], ', '.join(call))
+                if ret is not None and is_intlike(ret) and ret[1] != 'bool':
+                    body += ['        let r = %s;' % callx, '        assert_eq!(r as i128, 77);']
+                else: body.append('        %s;' % callx)
+                body += ['        assert_eq!(LOG_ADDR_USES, 1);', '        assert_eq!(LOG_ADDR, %d);' % addr, '        assert_eq!(LOG_CALLS, 1);']
+                if recv: body.append('        assert_eq!(LOG_THIS, &obj as *const %s as usize);' % nm)
+                body += chk + ['      }', '    }']
+                out += body; names.append(h)
+            if inner[5] is not None:
+                h = 'singleton_%s' % nm
+                out += ['    #[kani::proof]', '    fn %s() {' % h, '      unsafe {', '        LOG_ADDR_USES = 0; CELL = 0;',
+                        '        assert!(%s::get().is_none());' % nm, '        assert_eq!(LOG_ADDR, %d);' % inner[5], '        assert_eq!(LOG_ADDR_USES, 1);',
+                        '        let mut obj: %s = core::mem::zeroed();' % nm, '        CELL = core::ptr::addr_of_mut!(obj) as usize;',
+                        '        let r = %s::get();' % nm, '        assert!(r.is_some());',
+                        '        assert_eq!(r.unwrap() as *mut %s as usize, core::ptr::addr_of_mut!(obj) as usize);' % nm, '      }', '    }']
+                names.append(h)
+        else:
+            if inner[4] is not None and inner[3]:
+                h = 'singleton_%s' % nm
+                first = inner[3][0][0]
+                out += ['    #[kani::proof]', '    fn %s() {' % h, '      unsafe {', '        LOG_ADDR_USES = 0;',
+                        '        core::ptr::write(core::ptr::addr_of_mut!(DATA) as *mut %s, %s::%s);' % (nm, nm, first),
+                        '        let v = %s::get();' % nm, '        assert!(v == %s::%s);' % (nm, first),
+                        '        assert_eq!(LOG_ADDR, %d);' % inner[4], '        assert_eq!(LOG_ADDR_USES, 1);', '      }', '    }']
+                names.append(h)
+    for m in w.summary[1]:
+        if m[1] != 'm': continue
+        for ev in m[4]:
+            _, vis, name, ty, addr = ev
+            h = 'externval_%s' % name
+            out += ['    #[kani::proof]', '    fn %s() {' % h, '      unsafe {', '        LOG_ADDR_USES = 0;',
+                    '        let r: &mut %s = get_%s();' % (rust_type(ty, mp), name),
+                    '        assert_eq!(r as *mut %s as usize, core::ptr::addr_of_mut!(DATA) as usize);' % rust_type(ty, mp),
+                    '        assert_eq!(LOG_ADDR, %d);' % addr, '        assert_eq!(LOG_ADDR_USES, 1);', '      }', '    }']
+            names.append(h)
     stub_n = [0]
     for path, it in sorted(items.items()):
         if not path.startswith('m::') or it[3] != 'defined' or it[4][0] != 'resolved' or it[4][3][0] != 'type': continue
@@ -302,8 +377,24 @@ def extern_defs(w):
     return '\n'.join(out)
 
 
+ADDR = r'(0x[0-9A-Fa-f]+|\d+usize|\d+)'
+
+
+def rewrite_absolute_addresses(t, modprefix):
+    """CBMC cannot call or dereference an integer address.  Every place where the emitted code turns a literal address into a
+    function pointer or a data pointer is redirected to a helper in `mod proofs` that *records the literal* and hands out a
+    harness-controlled target.  Nothing else of the emitted text changes."""
+    P = 'crate::%sm::proofs::' % modprefix
+    t = re.sub(r'::std::mem::transmute\(\s*' + ADDR + r' as usize,?\s*\)', lambda m: P + 'addr_fn(' + m.group(1) + ' as usize)', t)
+    t = re.sub(r'\(\s*' + ADDR + r' as \*mut \*mut Self\s*\)', lambda m: '(' + P + 'addr_cell(' + m.group(1) + ' as usize) as *mut *mut Self)', t)
+    t = re.sub(r'\(\s*' + ADDR + r' as \*const Self\s*\)', lambda m: '(' + P + 'addr_enum(' + m.group(1) + ' as usize) as *const Self)', t)
+    t = re.sub(r'\(\s*' + ADDR + r' as \*mut ', lambda m: '(' + P + 'addr_data(' + m.group(1) + ' as usize) as *mut ', t)
+    return t
+
+
 def normalise(text, modprefix):
     t = text.replace('crate::m::', 'crate::%sm::' % modprefix)
+    t = rewrite_absolute_addresses(t, modprefix)
     for cc in CCS:
         if cc != 'C': t = t.replace('extern "%s"' % cc, 'extern "C"')
     return t
